@@ -50,11 +50,12 @@ IR_INT = {"i8": 1, "u8": 1, "i16": 2, "u16": 2, "i32": 4, "u32": 4, "i64": 8, "u
 MARCHES = (("x86_64", 8), ("arm", 4))
 MODULE = "main"
 WORKERS = 8
-QUICK_PROBES = 130            # sampled probes in the quick tier (plus the sentinels); thorough runs all of them
+QUICK_PROBES = 110            # sampled probes in the quick tier (plus the sentinels); thorough runs all of them
 QUICK_PROBE_VECTORS = 4
 QUICK_PROGRAMS = 16
 THOROUGH_PROGRAMS = 250
 THOROUGH_PROBE_VECTORS = 10
+FAMILIES = ("bin:", "type-of:", "compound:", "compound-mem:", "cast:", "conv-", "index:", "unary:", "ptr:param:", "ptr:var:")
 # probes that are always run: they decide which construct classes the random programs avoid
 SENTINELS = {"constexpr:%:neg", "constexpr:/:inexact", "constexpr:+", "ginit:%:neg", "bin:>>:u8,u8", "bin:/:i32,i32",
              "compound:*=:lhs=u8,rhs=i32", "cast:i32->i8", "switch:default-middle", "ptr:local", "bin:<:u8,i32"}
@@ -66,7 +67,9 @@ def bvals(t, small=False):
     s = [0, 1, 2, 7, hi, hi - 1, hi // 2 + 1, 100]
     if lo < 0:
         s += [-1, -2, -7, lo, lo + 1]
-    if small:
+    if small == "tiny":
+        s = [0, 1, 2, 3, 5]
+    elif small:
         s = [0, 1, 3, BITS[t] - 1, 7, 31]
     return sorted({v for v in s if lo <= v <= hi})
 
@@ -171,7 +174,7 @@ def probes():
     # loops and conditions
     yield ("loop:for", PROG([FN("f", "i32", [("n", "i32")], [DECL("s", "i32", L(0)), DECL("i", "i32", L(0)),
                                                              FOR(ASG(V("i"), L(1)), B("<=", V("i"), V("n")), ASG(V("i"), L(1), "+="),
-                                                                 [ASG(V("s"), V("i"), "+=")]), RET(V("s"))])]), True)
+                                                                 [ASG(V("s"), V("i"), "+=")]), RET(V("s"))])]), "tiny")
     yield ("loop:while-nested",
            PROG([FN("f", "i32", [("n", "u8")], [DECL("s", "i32", L(0)), DECL("i", "u8", L(0)),
                                                 WHILE(B("<", V("i"), V("n")),
@@ -179,7 +182,7 @@ def probes():
                                                        WHILE(B("and", B("<", V("j"), L(3)), B("!=", V("j"), V("i"))),
                                                              [ASG(V("s"), B("+", V("s"), B("*", V("j"), V("i")))), ASG(V("j"), L(1), "+=")]),
                                                        ASG(V("i"), B("+", V("i"), L(1)))]),
-                                                RET(V("s"))])]), True)
+                                                RET(V("s"))])]), "tiny")
     for op in ("and", "or"):
         yield ("shortcircuit:%s" % op,
                PROG([FN("g", "bool", [("x", "i32")], [ASG(V("gv"), V("x"), "+="), RET(B(">", V("x"), L(2)))]),
@@ -213,7 +216,7 @@ def probe_vectors(f, small_b, rng, n):
 
     if len(ps) == 1:
         cands = [[a] for a in vals(ps[0], small_b)]
-        if small_b:
+        if small_b is True:
             cands += [[a] for a in (-1, 2, 200) if trange(ps[0]["ty"])[0] <= a <= trange(ps[0]["ty"])[1] and [a] not in cands]
     else:
         for a in vals(ps[0]):
@@ -617,7 +620,7 @@ def model_check(ctx):
     cases = micro_cases()
     path = ctx.trace_file(cases, "micro.json")
     obsdir = tempfile.mkdtemp(prefix="mcacts_", dir=ctx.workdir)
-    nv = 13 if ctx.tier == "thorough" else 5
+    nv = 13 if ctx.tier == "thorough" else 4
     res = ctx.tlc("C3Src_MC", MC_CFG % nv, label="C3Src_MC laws + micro programs", env={"TRACE_FILE": path, "OBS_DIR": obsdir},
                   continue_=True, workers=WORKERS, coverage=False)
     os.unlink(path)
@@ -777,9 +780,10 @@ class Engine:
         if thorough:
             chosen = allp
         else:
-            rest = [p for p in allp if p[0] not in SENTINELS]
-            chosen = [p for p in allp if p[0] in SENTINELS] + \
-                     [rest[k] for k in sorted(ctx.rng.sample(range(len(rest)), min(QUICK_PROBES, len(rest))))]
+            # quick: the sentinels and every probe outside the big operator x type families, + a seeded sample of those
+            always = [p for p in allp if p[0] in SENTINELS or not p[0].startswith(FAMILIES)]
+            rest = [p for p in allp if p[0] not in SENTINELS and p[0].startswith(FAMILIES)]
+            chosen = always + [rest[k] for k in sorted(ctx.rng.sample(range(len(rest)), min(QUICK_PROBES, len(rest))))]
         items = []
         for key, prog, small in chosen:
             f = [x for x in prog["funcs"] if x["n"] == prog["main"]][0]
@@ -834,25 +838,30 @@ class Engine:
 
     def judge_split(self, ctx, batch, obs, label, per_item):
         """One TLC run over all (item, target) cases; returns (result, {(item, vector): [(clause, state, target)]})."""
-        where = [(k, march) for k in range(len(batch)) for march in per_item[k]]
+        # only the executions that C3 semantics define are run on the IR (the others give no verdict)
+        oks = [[a for a in range(len(it["vecs"])) if obs[(k, a)]["status"] == "ok"] for k, it in enumerate(batch)]
+        where = [(k, march) for k in range(len(batch)) if oks[k] for march in per_item[k]]
         cases = []
         for k, march in where:
             it = batch[k]
             cases.append({"id": it["key"] + "@" + march, "mods": [it["pm"][march]], "fn": "%s_%s" % (MODULE, it["f"]["n"]),
-                          "argv": it["ir_argv"][march], "ext": [], "fuel": 30000,
-                          "obs": [ir_obs(obs[(k, a)]) for a in range(len(it["vecs"]))]})
+                          "argv": [it["ir_argv"][march][a] for a in oks[k]], "ext": [], "fuel": 30000,
+                          "obs": [ir_obs(obs[(k, a)]) for a in oks[k]]})
+        bad = {}
+        if not cases:
+            return None, bad
         path = ctx.trace_file(cases, "ir.json")
         res = ctx.tlc("C3Src_IR", IR_CFG, label=label, env={"TRACE_FILE": path}, continue_=True, workers=WORKERS, heap="12g",
                       coverage=os.environ.get("C37_COVERAGE", "0") == "1")
         os.unlink(path)
-        bad = {}
         for e in res.errors:
             st = e.last
             i, av = st.get("i"), st.get("av")
-            if e.kind != "invariant" or not isinstance(i, int) or i < 1 or i > len(cases) or not isinstance(av, int):
+            if e.kind != "invariant" or not isinstance(i, int) or i < 1 or i > len(cases) or not isinstance(av, int) \
+                    or av < 1 or av > len(oks[where[i - 1][0]]):
                 raise MachineryError("unexpected TLC error in the C3Src_IR run: %s\n%s" % (e, e.text[:1500]))
             k, march = where[i - 1]
-            bad.setdefault((k, av - 1), []).append((e.name, st, march))
+            bad.setdefault((k, oks[k][av - 1]), []).append((e.name, st, march))
         return res, bad
 
     def account(self, ctx, batch, obs, bad, guard, stat):
